@@ -33,6 +33,8 @@ THEOREMS = [
     'Pyiga.Props.C10.combine_bcs_spec',
     'Pyiga.Props.C10.combine_bcs_value',
     'Pyiga.Props.C10.blocked_numbering_injective',
+    'Pyiga.Props.C10.dirichlet_bcs_once',
+    'Pyiga.Props.C10.multipatch_bcs_once',
     'Pyiga.Props.C10.initial_condition_01',
     'Pyiga.Props.C10.boundary_dofs_spec',
     'Pyiga.Props.C10.boundary_dofs_count',
@@ -223,7 +225,7 @@ def gen_rls(ctx):
                 for _ in range(reps):
                     cases.append((mk(n, list(idx)), 'exh'))
     # random larger systems, random order
-    nrand = 1800 if ctx.tier == 'quick' else 40000
+    nrand = 1800 if ctx.tier == 'quick' else 20000
     for _ in range(nrand):
         n = int(rng.integers(5, 9))
         mode = int(rng.integers(0, 8))
@@ -232,7 +234,7 @@ def gen_rls(ctx):
         m = n if rng.integers(0, 3) else int(rng.integers(1, 9))
         cases.append((mk(n, idx, m=m), 'rand'))
     # malformed: expected outcome is the error kind
-    nbad = 400 if ctx.tier == 'quick' else 5000
+    nbad = 400 if ctx.tier == 'quick' else 3000
     for _ in range(nbad):
         n = int(rng.integers(1, 8))
         k = int(rng.integers(1, n + 1))
@@ -391,6 +393,13 @@ def search_rls(case):
                      case.sparse, case.idxkind, case.valkind, case.erkind, case.Bsparse, 'array')
         if t >= 20 and not np.isscalar(case.vals):
             c2.vals = [float(v) for v in rng.integers(-9, 10, size=len(case.vals))]
+        if t % 4 >= 2:
+            # make the restricted system square so that it can be solved: |elim_rows| = m - n + |indices|
+            k = m - n + len(set(case.idx))
+            if m == n and t % 4 == 2:
+                c2.er = None
+            elif 0 <= k <= m:
+                c2.er = [int(r) for r in rng.permutation(m)[:k]]
         d = oracle_rls(c2)
         if d is not None:
             return d, c2
@@ -557,7 +566,7 @@ def run(ctx):
     ctx.count('boundary_dofs/cells requests', nbd)
 
     # ------------------------------------------------------------ (C) combine_bcs / _drop_nans
-    ncomb = 1500 if ctx.tier == 'quick' else 20000
+    ncomb = 1500 if ctx.tier == 'quick' else 10000
     for _ in range(ncomb):
         k = int(rng.integers(1, 5))
         bcs = []
@@ -641,7 +650,7 @@ def run(ctx):
                 ok = False
         float_checks.append((what, ok, replay))
 
-    ndbc = 120 if ctx.tier == 'quick' else 1500
+    ndbc = 120 if ctx.tier == 'quick' else 800
     for t in range(ndbc):
         d = int(rng.integers(2, 4)) if t % 8 else 1
         kvs, geo = patch(d)
@@ -757,7 +766,7 @@ def run(ctx):
             float_checks.append(('Multipatch.compute_dirichlet_bcs raised', False, meta[-1][1]))
 
     # ------------------------------------------------------------ (E) initial conditions
-    nic = 80 if ctx.tier == 'quick' else 1000
+    nic = 80 if ctx.tier == 'quick' else 500
     ic_cases = {}
     for t in range(nic):
         d = int(rng.integers(2, 4))
@@ -860,7 +869,7 @@ def run(ctx):
     ctx.extra['requests'] = len(req)
 
     # ------------------------------------------------------------ direct oracle runs (model-free)
-    nor = 400 if ctx.tier == 'quick' else 6000
+    nor = 400 if ctx.tier == 'quick' else 3000
     orng = np.random.default_rng(ctx.seed + 10)
     nchecked = 0
     for i in orng.permutation(len(rls_cases))[:nor]:
